@@ -44,7 +44,7 @@ Definition stat_var (fl : list num) : option Q :=
 Definition stat_quantiles (fl : list num) : list (option Q) :=
   match finite_values fl with
   | [] => [None; None; None; None; None]
-  | v => map (fun q => Some q) (five_quantiles v)
+  | v => map (fun q => Some (Qred q)) (five_quantiles v)
   end.
 
 Record num_stats := { s_mean : option Q; s_var : option Q; s_quant : list (option Q) }.
